@@ -62,10 +62,33 @@ def corpus(seed, tier):
     return out, dist
 
 
+def _cached(tag, binary, lines, runner):
+    """answers of a runner on `lines`, cached under work/cache by (contents of the runner binary, lines): C02 and C03
+    run the same corpus; the binary is rebuilt from /repo's current tree before every check, so an unchanged binary
+    gives unchanged answers"""
+    import hashlib, json
+    hsh = hashlib.sha256()
+    hsh.update(open(binary, 'rb').read())
+    hsh.update('\n'.join(lines).encode())
+    d = f'{core.VERIF}/work/cache'
+    os.makedirs(d, exist_ok=True)
+    fn = f'{d}/{tag}-{hsh.hexdigest()[:32]}.json'
+    if os.path.exists(fn):
+        try:
+            return json.load(open(fn))
+        except Exception:
+            pass
+    out = runner(lines)
+    for old in sorted((f for f in os.listdir(d) if f.startswith(tag + '-')), key=lambda f: os.path.getmtime(f'{d}/{f}'))[:-3]:
+        os.remove(f'{d}/{old}')
+    json.dump(out, open(fn, 'w'))
+    return out
+
+
 def run_traces(cs):
     lines = [f'{cid}|provertrace|{p}|{lim}' for cid, p, lim in cs]
-    h = core.run_bbh(lines)
-    m = core.run_bbm(lines)
+    h = _cached('bbh-trace', core.BBH, lines, core.run_bbh)
+    m = _cached('bbm-trace', core.BBM, lines, core.run_bbm)
     diffs = []
     for cid, p, lim in cs:
         a, b = h.get(cid, 'MISSING-H'), m.get(cid, 'MISSING-M')
@@ -188,7 +211,7 @@ def run(rep, tier, seed):
             nf14 += 1
             known_cids.add(cid)
             why = failed[cid][2] if cid in failed else f'run_prover says {r["kind"]} (marks {r["marks"]}, rulapp {r["rulapp"]}); not confirmed by any real run'
-            if nf14 <= 3 or cid in failed:
+            if nf14 <= 3 or (cid in failed and nf14 <= 6):
                 rep.known_finding(f'F14: {why}; the verdict rests on a rule application that is not a run of the machine: ' + C03.f14_text(fl))
     fails = [f for f in fails if f[0] not in known_cids]
     if nf14:
